@@ -11,6 +11,7 @@ ASSUMPTIONS = [
     "not decided: byte-level equality of relayed records over all upstream replies (codec behaviour; see C14)",
     "trusted: rustc's MIR construction and trait resolution; Clone impls of Vec/RR/Question copy their contents",
 ]
+EXPLANATION += '; also: the encoder compares labels bytewise; an in-flight TCP id is never re-assigned; a truncated UDP reply is never the result; TTL ageing (C06), truncation (C04) and OPT emission (C14) clauses are evaluated here too'
 EXTRA_CONFIGS = ["dns"]
 
 SECTIONS = ("answer", "nameserver", "additional")
